@@ -260,6 +260,8 @@ def gen_bind_attempt(rng, regs, scopes, forms=('tuple', 'list', 'str', 'text', '
     spelled = spell(rng, sel)
   cls = param_classes(reg)
   arg = rng.choice(list(cls)) if cls else 'nope'
+  if rng.random() < 0.06:
+    arg = rng.choice(['args', 'kw'])   # what the probes call their *args / **kwargs: never a parameter
   form = rng.choice(forms)
   return {'op': 'bind', 'scope': '/'.join(rng.choice(scopes)), 'sel': spelled, 'arg': arg,
           'val': gen_value(rng, 1), '_form': form, 'block': form == 'block', '_reg': reg['obj'],
